@@ -1,0 +1,13 @@
+//! Verification hooks (compiled only with `--cfg bladeink_verif`): re-exports of crate-private items so that the
+//! replay harness of the /verif machinery can call the real functions directly. Adds no behaviour.
+pub use crate::ink_list::InkList;
+pub use crate::ink_list_item::InkListItem;
+pub use crate::list_definition::ListDefinition;
+pub use crate::native_function_call::{NativeFunctionCall, Op};
+pub use crate::object::RTObject;
+pub use crate::path::{Component, Path};
+pub use crate::value::Value;
+
+pub fn clean_output_whitespace(s: &str) -> String {
+    crate::story_state::StoryState::clean_output_whitespace(s)
+}
